@@ -227,6 +227,21 @@ def collocation_content(ctx):
                     tp = freeze(pc[k * M + i])
                     ok3 = count_sub(tp, lambda s: s == t) >= 1
                     ctx.check(ok3, "%s: poly_coeff[%d] is built from Xc[%d][%d]" % (label, k * M + i, k, i), detail="dense-output block of another interval", expected="mtimes(Xc[k][i], ...)", found=short(pc[k * M + i])[:80], fi=f)
+        Z, Zc, zk = L(a, "Z"), L(a, "Zc"), L(a, "zk")
+        if cfg.get("nz", True) and Z and Zc and len(Z) == N + 1 and len(Zc) == N and all(isinstance(x, list) and len(x) == M for x in Zc):
+            fz = [[freeze(Zc[k][i]) for i in range(M)] for k in range(N)]
+            for k in range(N + 1):
+                src = fz[k][0] if k < N else fz[N - 1][M - 1]
+                others = [fz[kk][ii] for kk in range(N) for ii in range(M) if fz[kk][ii] != src]
+                t = freeze(Z[k])
+                ok = count_sub(t, lambda s: s == src) >= 1 and not any(count_sub(t, lambda s, o=o: s == o) for o in others)
+                ctx.check(ok, "%s: Z[%d] is built from the algebraic helpers of %s" % (label, k, "integration interval (%d,0)" % k if k < N else "the last integration interval (%d,%d)" % (N - 1, M - 1)),
+                          detail="algebraic value at a control node taken from another integration interval", expected="Zc[k][0] for k<N, Zc[N-1][M-1] at the final node", found=short(Z[k])[:80], fi=f)
+            if zk and len(zk) == N * M:
+                for k in range(N):
+                    for i in range(M):
+                        ok = count_sub(freeze(zk[k * M + i]), lambda s: s == fz[k][i]) >= 1
+                        ctx.check(ok, "%s: zk[%d] is built from Zc[%d][%d]" % (label, k * M + i, k, i), detail="algebraic value at an integrator point taken from another interval", expected="Zc[k][i]", found=short(zk[k * M + i])[:80], fi=f)
         Q = L(a, "Q")
         xqk = L(a, "xqk")
         if Q and len(Q) == N + 1:
